@@ -39,7 +39,8 @@ typedef ProjDataFromStream PDFS;
 
 // ------------------------------------------------------------------ configuration (inputs chosen by the driver)
 struct Cfg {
-  int N, R, maxDelta, ntang, tofMash, viewMash;  // geometry: N detectors/ring, R rings, span 1; tofMash 0 = non-TOF
+  int N, R, maxDelta, ntang, tofMash, viewMash;  // geometry: N detectors/ring, R rings, span 1; tofMash = TOF bins of the scanner, 0 = non-TOF
+  bool tofOne;                                   // TOF-capable scanner, TOF mashing factor = all bins: ONE TOF bin
   int segReduce;                                 // reduce_segment_range(-max+segReduce, max) for raw/in-memory stores (0 = none)
   std::string backing;                           // "stream" | "interfile" | "hdrstream" | "memory"
   bool fresh;                                    // data file not pre-sized (writes only, file grows)
@@ -182,8 +183,9 @@ static shared_ptr<ExamInfo> make_exam(int variant) {
 }
 
 
-static PDFS::StorageOrder order_enum(const Cfg& c, bool tof) {
-  if (tof && c.tofOrderGiven)
+static bool timing_order_given(const Cfg& c) { return c.tofMash > 0 && c.tofOrderGiven; }
+static PDFS::StorageOrder order_enum(const Cfg& c, bool) {
+  if (timing_order_given(c))
     return c.byView ? PDFS::Timing_Segment_View_AxialPos_TangPos : PDFS::Timing_Segment_AxialPos_View_TangPos;
   return c.byView ? PDFS::Segment_View_AxialPos_TangPos : PDFS::Segment_AxialPos_View_TangPos;
 }
@@ -202,7 +204,7 @@ static bool make_store(vh::Trace& tr, Store& s, const Cfg& c, const std::string&
   s.c = c;
   ++cfg_id;
   auto sc = vh::make_scanner(c.N, c.R, c.tofMash > 0 ? c.tofMash : 0);
-  s.pdi = ProjDataInfo::construct_proj_data_info(sc, 1, c.maxDelta, c.N / 2 / c.viewMash, c.ntang, false, c.tofMash > 0 ? 1 : 0);
+  s.pdi = ProjDataInfo::construct_proj_data_info(sc, 1, c.maxDelta, c.N / 2 / c.viewMash, c.ntang, false, c.tofMash > 0 ? (c.tofOne ? c.tofMash : 1) : 0);
   if (c.segReduce > 0) s.pdi->reduce_segment_range(s.pdi->get_min_segment_num() + c.segReduce, s.pdi->get_max_segment_num());
   s.exam = make_exam(c.exam);
   s.n = (long)s.pdi->size_all();
@@ -246,6 +248,7 @@ static bool make_store(vh::Trace& tr, Store& s, const Cfg& c, const std::string&
       .num("minView", s.pdi->get_min_view_num()).num("maxView", s.pdi->get_max_view_num())
       .num("minTang", s.pdi->get_min_tangential_pos_num()).num("maxTang", s.pdi->get_max_tangential_pos_num())
       .num("minTof", s.pdi->get_min_tof_pos_num()).num("maxTof", s.pdi->get_max_tof_pos_num()).num("n", s.n)
+      .boolean("timingOrder", timing_order_given(c)).boolean("tofReady", c.tofMash > 0)
       .arr("pre0", pre).boolean("err", err).boolean("herr", herr).boolean("rel", (bool)s.symm);
   if (!err) observe(j, s); else j.num("bytes", 0).arr("pre", std::vector<int>()).arr("file", std::vector<int>());
   tr.emit(j);
@@ -532,6 +535,7 @@ static Cfg random_cfg(vh::Rng& rng, long i) {
   c.tofMash = (i / 4) % 2 ? 3 : 0;     // number of TOF positions (0 = non-TOF)
   if (c.tofMash && rng.range(0, 4) == 0) c.tofMash = 5;
   if (c.tofMash == 5 && c.R == 3 && c.maxDelta == 2) c.ntang = 2;
+  c.tofOne = c.tofMash > 0 && rng.range(0, 5) == 0;
   c.segReduce = 0;
   if ((c.backing == "stream" || c.backing == "memory") && c.maxDelta >= 1 && rng.range(0, 5) == 0) c.segReduce = 1;
   c.fresh = c.backing != "memory" && rng.range(0, 9) < 3;
